@@ -45,7 +45,7 @@ Definition part_eqb (p q : part) : bool :=
   Z.eqb (pstart p) (pstart q) && Z.eqb (pend p) (pend q) && strand_eqb (pstrand p) (pstrand q).
 
 Definition feature_eqb (f g : feature) : bool :=
-  Bool.eqb (fsource f) (fsource g) && Nat.eqb (ftype f) (ftype g) && Nat.eqb (fquals f) (fquals g)
+  Bool.eqb (fsource f) (fsource g) && Nat.eqb (ftype f) (ftype g) && quals_eqb (fquals f) (fquals g)
   && list_eqb part_eqb (floc f) (floc g).
 
 Definition record_eqb (a b : record) : bool :=
